@@ -65,34 +65,35 @@ const (
 type pFinding struct{ Prop, Key, Msg string }
 
 type prioResult struct {
-	Rejected     string
-	RejectedErr  error
-	Findings     []pFinding
-	Received     int
-	Written      int
-	MaxHeld      int
-	ReachedH     bool
-	HeldVectors  map[string]struct{}
-	ReleaseGrps  int
-	SatGroups    int // release groups inside the saturation window
-	SatChecks    int // checkpoints at which every priority held exactly its share
-	Probes       int // progress probes evaluated
-	AloneProbes  int
-	Terminated   bool
-	TermWay      string
-	ErrValues    []string
-	CensusTaken  bool
-	Leaked       int
-	HoldChecks   int // quiescent points at which the discipline was (correctly) still open although drained except for a withheld release / open input
-	StopState    string
-	StopInjected bool
-	CtlOps       int
-	DivCalls     int
-	FaultHit     bool
-	FaultInfo    string
-	PriosWith2   int
-	Log          []string
-	Aborted      string
+	Rejected        string
+	RejectedErr     error
+	Findings        []pFinding
+	Received        int
+	Written         int
+	MaxHeld         int
+	ReachedH        bool
+	HeldVectors     map[string]struct{}
+	ReleaseGrps     int
+	SatGroups       int // release groups inside the saturation window
+	SatChecks       int // checkpoints at which every priority held exactly its share
+	Probes          int // progress probes evaluated
+	AloneProbes     int
+	Terminated      bool
+	TermWay         string
+	ErrValues       []string
+	CensusTaken     bool
+	Leaked          int
+	HoldChecks      int // quiescent points at which the discipline was (correctly) still open although drained except for a withheld release / open input
+	StopState       string
+	StopInjected    bool
+	CtlOps          int
+	RemovedWithData int // removals / replacements after which the old channel had items taken or left
+	DivCalls        int
+	FaultHit        bool
+	FaultInfo       string
+	PriosWith2      int
+	Log             []string
+	Aborted         string
 }
 
 type ctlCall struct {
@@ -420,6 +421,9 @@ func (x *prioExec) pollCtl() {
 				c.old.takenAt = c.old.taken()
 				c.old.removed = true
 				x.logf("%s(%d) returned: channel #%d had %d items taken", c.op, c.p, c.old.ID, c.old.takenAt)
+				if c.old.takenAt > 0 || c.old.wcCount.Load() > 0 {
+					x.res.RemovedWithData++
+				}
 			}
 			if c.op == "RemoveInput" {
 				x.mon.allow(c.p, false)
